@@ -339,6 +339,19 @@ def _c09_history(env, hname, setup, auxfiles, steps, initial):
                 if t.get(fn) != data:
                     have = t.get(fn)
                     bculprit = (fn, None if have is None else len(have), len(data))
+            # "a new record never becomes visible under its final name before its content is durable":
+            # the busy user's file is the previous record, the new record, absent, or (add) an empty reservation
+            vculprit = None
+            if busy is not None:
+                nxt = S[op_in_progress]
+                for fn, have in t.items():
+                    if owner(fn) != busy:
+                        continue
+                    allowed = [expfiles.get(fn), nxt.get(fn)]
+                    if steps[op_in_progress]['op'] in ('add', 'init'):
+                        allowed.append(b'')
+                    if have not in [a for a in allowed if a is not None]:
+                        vculprit = (fn, len(have), [len(a) for a in allowed if a is not None])
             env.distinct.add((hname, k_acked, pt.phase, json.dumps(sorted(obs.items()), default=str)))
             replay = {'history': steps, 'point': pt.desc, 'state': label, 'acked_upto': k_acked,
                       'tree': {r: (None if v is None else base64.b64encode(v).decode()) for r, v in trees[k].items() if not isinstance(v, tuple)}}
@@ -349,6 +362,11 @@ def _c09_history(env, hname, setup, auxfiles, steps, initial):
                 env.violation('acknowledged-change-lost:%s' % opk,
                               '[history %s, power-loss model] crash %s (%s): operations 0..%d were acknowledged, so user %s must be %s, but the post-crash store shows %s. Lost acknowledged operation: #%s %s'
                               % (hname, pt.desc, label, k_acked, u, want, got, lost, steps[lost] if lost is not None else None), replay)
+            elif vculprit:
+                fn, have, allowed = vculprit
+                env.violation('final-name-visible-before-content-durable:%s' % steps[op_in_progress]['op'],
+                              '[history %s, power-loss model] crash %s (%s) during operation #%d %s: file %s is visible under its final name with %d bytes, which is neither the previous nor the complete new record (%s bytes)'
+                              % (hname, pt.desc, label, op_in_progress, steps[op_in_progress], fn, have, allowed), replay)
             elif bculprit:
                 fn, have, want = bculprit
                 lost = next((j for j in range(k_acked, -1, -1) if steps[j]['user'] == owner(fn)), None)
